@@ -508,6 +508,62 @@ def check_reuse(tier, k, n, res):
                 res.outcome(('reuse', fi, pi))
 
 
+BAD_PROGRAMS = [b'if (a) b=\n', b'if (a) foo(1,\n', b'if (a) b=1 else c=\n', b'?1,\n', b'do x=\n', b'function f(\n', b'x=(1\n',
+                b'if a then b=1\n', b'x={1,\n', b'if (a) ?\nend\n', b'for i=1 do end\n', b'repeat x=1\n']
+
+
+def check_parser_reuse(tier, k, n, res):
+    """One parser.Parser object given several token lists in turn (process_tokens is documented as re-usable from
+    one thread): what it builds for a program may not depend on what it was given before - other programs, or
+    programs it rejected (a ParserError raised anywhere, inside a short-if or `?` line included)."""
+    import itertools
+    from lib import asttools
+    from pico8.lua import lexer, parser
+    def lex(src):
+        lx = lexer.Lexer(version=8)
+        lx.process_lines([src])
+        return lx.tokens
+    bads = [lex(b) for b in BAD_PROGRAMS]
+    goods = []
+    for prog in itertools.chain(programs(tier, 'stat', k, n), programs(tier, 'seq', k, n)):
+        if isinstance(prog, tuple) or len(prog.toks) > 14:
+            continue
+        goods.append(L.assemble(prog, {}))
+    prev_good = b'if (a) b=1\nx=2\n?x\n'
+    for gi, src in enumerate(goods):
+        toks = lex(src)
+        fresh = parser.Parser(version=8)
+        try:
+            fresh.process_tokens(toks)
+            want = (asttools.chunk(fresh.root), fresh.root.end_pos)
+        except Exception:
+            continue            # the main families judge whether it parses at all
+        for hi, hist in enumerate(([bads[gi % len(bads)]], [bads[(gi + 5) % len(bads)], bads[(gi + 1) % len(bads)]],
+                                   [lex(prev_good), bads[(gi + 2) % len(bads)]], [lex(prev_good)])):
+            res.evaluations += 1
+            p = parser.Parser(version=8)
+            for h in hist:
+                try:
+                    p.process_tokens(h)
+                except Exception:
+                    pass
+            case = {'parser_reuse': [b''.join(t.code for t in h) for h in hist], 'src': src}
+            try:
+                p.process_tokens(toks)
+                got = (asttools.chunk(p.root), p.root.end_pos)
+            except Exception as e:
+                res.violation('C08|parser-reuse|raise|%s|hist=%d' % (type(e).__name__, hi),
+                              'a Parser that was first given %r rejects the valid program %r: %s' % (case['parser_reuse'], src, e), case)
+                continue
+            if got != want:
+                res.violation('C08|parser-reuse|tree|hist=%d' % hi,
+                              'a Parser that was first given %r builds another tree for %r than a fresh Parser (ends at token %d, '
+                              'fresh: %d)' % (case['parser_reuse'], src, got[1], want[1]), case)
+                continue
+            res.nontriv(('parser-reuse', hi, src))
+        res.outcome(('parser-reuse',))
+
+
 def _print_tree(value, indent=0, prefix='', out=None):
     """The documented shape of `p8tool printast`: one line per node (class name), its fields below it in field order,
     two more columns of indentation per level, '* field: ' / '- ' prefixes, '[list:]' for sequences, str() for leaves."""
@@ -583,6 +639,7 @@ def run_shard(item):
         res.sample({'family': 'printast-cli', 'src': b'a = b\n'})
         return res
     if item[0] == 'reuse':
+        check_parser_reuse(item[2], item[4], item[5], res)
         check_reuse(item[2], item[4], item[5], res)
         res.sample({'family': 'reuse', 'first': [b'-- c\n'], 'second': b'-- t\nx=1\n'})
         return res
@@ -613,6 +670,10 @@ def run_shard(item):
 def replay(case):
     """Re-parse the recorded source; ground truth is re-derived by finding the program in its family."""
     res = ShardResult()
+    if 'parser_reuse' in case:
+        for k in range(8):
+            check_parser_reuse('quick', k, 8, res)
+        return [(s, v[0]) for s, v in res.violations.items()]
     if 'reuse' in case:
         for k in range(8):
             check_reuse('quick', k, 8, res)
